@@ -377,6 +377,10 @@ func c05GenCases(rng *rand.Rand, tier string) []Case {
 			}
 		}
 		k := 3 + rng.Intn(20)
+		if rng.Intn(60) == 0 { // a long history: the window slides over the whole buffer several times
+			k = 120 + rng.Intn(180)
+			tags = append(tags, "long")
+		}
 		hasPP := false
 		for j := 0; j < k; j++ {
 			switch r := rng.Intn(20); {
@@ -609,7 +613,7 @@ func init() {
 	register(&Prop{
 		ID: "C05",
 		Rule: "a real single Serf node per case (serf.Create, recording memberlist transport), EventBuffer N; user events through NotifyMsg, push/pull images through MergeRemoteState (with and without join-ignore). " +
-			"exhaustive: every sequence of ≤3 events over times {1,2,3,4,6} (thorough: ≤4 over {1,2,3,4,5,7}) × 2 items for N ∈ {1,2,3}; fixed: pairs of distinct events at one Lamport time whose name/payload concatenations coincide under the separators colon, none, slash, NUL, space, bar, equals, newline, comma, double colon (incl. the seeded deploy:web|v2 vs deploy|web:v2), empty name / empty payload, nil vs empty payload; random: N ∈ {1,2,3,4,8,512}, 3–25 ops, in a third of the cases all items come from one such ambiguous family (splits of one string around a separator, prefixes/suffixes, empty sides) and events share Lamport times, times drawn around cur−N−2…cur+1, ±k·N from earlier times (slot collisions), exact repeats, small values, near 2^64−1 (2^64−1 itself in ≈4% of the cases and in the two fixed boundary cases); " +
+			"exhaustive: every sequence of ≤3 events over times {1,2,3,4,6} (thorough: ≤4 over {1,2,3,4,5,7}) × 2 items for N ∈ {1,2,3}; fixed: pairs of distinct events at one Lamport time whose name/payload concatenations coincide under the separators colon, none, slash, NUL, space, bar, equals, newline, comma, double colon (incl. the seeded deploy:web|v2 vs deploy|web:v2), empty name / empty payload, nil vs empty payload; random: N ∈ {1,2,3,4,8,512}, 3–25 ops (1 case in 60: 120–300 ops), in a third of the cases all items come from one such ambiguous family (splits of one string around a separator, prefixes/suffixes, empty sides) and events share Lamport times, times drawn around cur−N−2…cur+1, ±k·N from earlier times (slot collisions), exact repeats, small values, near 2^64−1 (2^64−1 itself in ≈4% of the cases and in the two fixed boundary cases); " +
 			"non-trivial = the case contains an exact duplicate and a slot collision; distinct = distinct op sequence",
 		Gen:  c05GenCases,
 		Exec: c05Exec,
